@@ -44,6 +44,11 @@ CHECKS = {
    text="Seeded texts over ASCII, 1-4 byte codepoints and codepoints whose lower-casing changes length, with 0-5 known selections and milestone intervals 0/3/5/100; find_text, find_text_nocase, find_text_sequence, find_text_regex (1-4 expressions, capture groups, overlap on/off, precompiled set), split_text, trim_text(_with) on ResultItem<TextResource>, bound and unbound ResultTextSelection and ResultItem<TextSelection>, the store-wide searches over 2 resources, and segmentation/segmentation_in_range; results are compared with the reference as sequences of (begin, end, text), must carry the text really at those offsets, stay inside the searched range, and split/segmentation must partition it. Held on the inputs observed.",
    note="Trusted: the reference functions in harness/src/c07.rs (std and regex crate). Not judged (undocumented): case-insensitive matches cutting through the lower-case expansion of one codepoint, sequence searches where greedy and backtracking readings differ, the position of an empty trim result.",
    ref="5/C07"),
+ "C08": dict(
+   technique="runtime monitoring: metamorphic oracles over the same store (all constraint orders, conjunction = intersection of single-constraint answers, disjunction = duplicate-free union, LIMIT = slice, sub-query = nested iteration with bound variables, text form = built form), scan of the shadow model for unambiguous constraints, twin-store differential for ADD/DELETE against direct calls, unit monitors of Handles and LimitIter against std collections, and a support matrix that turns a previously answered constraint position into a violation when it starts to be refused",
+   text="On stores reached by seeded histories, queries of 1-3 constraints drawn from what exists in the store (and absent ids) over the six result types are evaluated in every order, alone, as a union, with LIMIT windows in [-len-2, len+2], as printed text, and as outer{inner} sub-queries (OPTIONAL 1 in 3) against nested iteration with with_*var bindings; ADD and DELETE queries are compared with annotate()/remove() calls on a twin built by replaying the same history. Held on what was observed; one finding (OPTIONAL) is recorded.",
+   note="Trusted: the nested-iteration and slice references in harness/src/c08.rs and the shadow model for ID / DATA key / DATA key op value. Constraint positions the evaluator reports as not implemented are counted, not compared; the committed support matrix (harness/data/c08-support.json) guards against a supported position becoming unsupported. LIMIT with negative begin and positive end is not judged.",
+   ref="5/C08"),
  "C09": dict(
    technique="runtime monitoring: totality oracle (catch_unwind + stall watchdog) over grammar-generated, mutated and token-soup strings fed to Query::parse and TryFrom<&str>; fixpoint oracle (structural comparison through the public accessors, equality of the second print, result equality on three stores) over parsed and programmatically built queries, with delta-debugging of violating queries to name the construct at fault",
    text="Well-formed STAMQL from a grammar (SELECT/ADD/DELETE, every constraint keyword, qualifier, operator and literal type, unions, limits, attributes, two levels of sub-queries), 12 kinds of mutation of it (truncation at every character boundary, token deletion/duplication/replacement, number-like literals of any size and sign, unicode and multi-byte whitespace, quote/backslash soup, brace/bar/bracket insertion) and token soup never make the parser panic or hang; every accepted or built printable query prints to text that parses to the same structure, prints identically again and evaluates to the same rows. Held on what was observed; two root causes for built queries are recorded as findings.",
